@@ -766,12 +766,30 @@ func fieldSource(v ssa.Value, depth int) (typ, field string, ok bool) {
 		return fieldSource(x.X, depth+1)
 	case *ssa.UnOp:
 		if x.Op == token.MUL {
-			if t, f, _, ok := an.FieldOf(x.X); ok {
+			if t, f, base, ok := an.FieldOf(x.X); ok {
+				// the Duration inside a timeutil.Duration wrapper: name the wrapped setting
+				if t == "github.com/AdguardTeam/golibs/timeutil.Duration" && f == "Duration" {
+					if t2, f2, _, ok2 := an.FieldOf(base); ok2 {
+						return t2, f2, true
+					}
+				}
 				return t, f, true
 			}
 		}
 	case *ssa.Field:
-		if t, f, _, ok := an.FieldOf(x); ok {
+		if t, f, base, ok := an.FieldOf(x); ok {
+			if t == "github.com/AdguardTeam/golibs/timeutil.Duration" && f == "Duration" {
+				switch b := base.(type) {
+				case *ssa.UnOp:
+					if t2, f2, _, ok2 := an.FieldOf(b.X); ok2 {
+						return t2, f2, true
+					}
+				case *ssa.Field:
+					if t2, f2, _, ok2 := an.FieldOf(b); ok2 {
+						return t2, f2, true
+					}
+				}
+			}
 			return t, f, true
 		}
 	case *ssa.Call:
@@ -2091,4 +2109,31 @@ func cmdConversions(c *an.Ctx, rule string, fields func(dst, src string) bool, m
 	}, fields, cmdRenamings, min)
 }
 
-var cmdRenamings = map[string]string{}
+var cmdRenamings = map[string]string{
+	"websvc.BlockPageServerConfig.ContentFilePath <- cmd.blockPageServer.BlockPage":                                 "the block page's file",
+	"dnssvc.CacheConfig.ECSCount <- cmd.cacheConfig.ECSSize":                                                        "size in entries",
+	"dnssvc.CacheConfig.MinTTL <- cmd.ttlOverride.Min":                                                              "the override's minimum",
+	"dnssvc.CacheConfig.NoECSCount <- cmd.cacheConfig.Size":                                                         "the plain size is the non-ECS cache's",
+	"dnssvc.CacheConfig.OverrideCacheTTL <- cmd.ttlOverride.Enabled":                                                "the override's switch",
+	"filter.ConfigParental.AdultBlockingEnabled <- cmd.fltGrpParental.BlockAdult":                                   "configuration spelling",
+	"filter.ConfigParental.SafeSearchGeneralEnabled <- cmd.fltGrpParental.GeneralSafeSearch":                        "configuration spelling",
+	"filter.ConfigParental.SafeSearchYouTubeEnabled <- cmd.fltGrpParental.YoutubeSafeSearch":                        "configuration spelling",
+	"filter.ConfigSafeBrowsing.DangerousDomainsEnabled <- cmd.fltGrpSafeBrowsing.BlockDangerousDomains":             "configuration spelling",
+	"filter.ConfigSafeBrowsing.NewlyRegisteredDomainsEnabled <- cmd.fltGrpSafeBrowsing.BlockNewlyRegisteredDomains": "configuration spelling",
+	"dnsserver/ratelimit.BackoffConfig.Count <- cmd.rateLimitConfig.BackoffCount":                                   "the limiter's own prefix dropped",
+	"dnsserver/ratelimit.BackoffConfig.Duration <- cmd.rateLimitConfig.BackoffDuration":                             "the limiter's own prefix dropped",
+	"dnsserver/ratelimit.BackoffConfig.Period <- cmd.rateLimitConfig.BackoffPeriod":                                 "the limiter's own prefix dropped",
+	"dnsserver/ratelimit.BackoffConfig.IPv4Count <- cmd.rateLimitOptions.Count":                                     "per-family options (which family: C09-R6)",
+	"dnsserver/ratelimit.BackoffConfig.IPv4Interval <- cmd.rateLimitOptions.Interval":                               "per-family options (which family: C09-R6)",
+	"dnsserver/ratelimit.BackoffConfig.IPv4SubnetKeyLen <- cmd.rateLimitOptions.SubnetKeyLen":                       "per-family options (which family: C09-R6)",
+	"dnsserver/ratelimit.BackoffConfig.IPv6Count <- cmd.rateLimitOptions.Count":                                     "per-family options (which family: C09-R6)",
+	"dnsserver/ratelimit.BackoffConfig.IPv6Interval <- cmd.rateLimitOptions.Interval":                               "per-family options (which family: C09-R6)",
+	"dnsserver/ratelimit.BackoffConfig.IPv6SubnetKeyLen <- cmd.rateLimitOptions.SubnetKeyLen":                       "per-family options (which family: C09-R6)",
+	"dnsserver/forward.HandlerConfig.FallbackAddresses <- cmd.upstreamFallbackConfig.Servers":                       "the fallback section's servers (which section: C17-R5)",
+	"dnsserver/forward.HandlerConfig.UpstreamsAddresses <- cmd.upstreamConfig.Servers":                              "the main section's servers (which section: C17-R5)",
+	"dnsserver/forward.HandlerConfig.HealthcheckBackoffDuration <- cmd.upstreamHealthcheckConfig.BackoffDuration":   "the health-check section's setting",
+	"dnsserver/forward.HandlerConfig.HealthcheckDomainTmpl <- cmd.upstreamHealthcheckConfig.DomainTmpl":             "the health-check section's setting",
+	"agd.QUICConfig.QUICLimitsEnabled <- cmd.ratelimitQUICConfig.Enabled":                                           "the QUIC section's switch (which section: C20-R5)",
+	"agd.TCPConfig.IdleTimeout <- cmd.dnsConfig.TCPIdleTimeout":                                                     "per-protocol structure drops the prefix",
+	"agd.TCPConfig.MaxPipelineEnabled <- cmd.ratelimitTCPConfig.Enabled":                                            "the TCP section's switch (which section: C20-R5, C18-R6)",
+}
